@@ -193,3 +193,29 @@ Example C20_ex_diff :
   mkDiff [([115; 46; 122]%N, Some s_skipped)] [([115; 46; 100]%N, Some s_skipped)]
          [(Some s_failed, Some s_passed, [115; 46; 98]%N)].
 Proof. vm_compute. reflexivity. Qed.
+
+(* ------------------------------------------------------------------ tie of the model constants to the source -------- *)
+(* gen/TablesViews.v is regenerated from /repo by harness/tables_views.py on every run (fail-closed on unknown shapes): the
+   status names, the statuses counted as "enabled", the message variables, the JUnit child rules and counters, the console
+   labels and summary lines the hand-written models are built on are the ones in the source. *)
+From LCC Require Import gen.TablesViews.
+From Coq Require Import Strings.String Strings.Ascii.
+Definition cp (x : string) : str := List.map N_of_ascii (list_ascii_of_string x).
+Theorem C20_tables_tie :
+  gen_statuses = [s_passed; s_failed; s_skipped; s_disabled] /\
+  gen_enabled = [s_passed; s_failed; s_skipped] /\
+  gen_message_vars = [(cp "start_time", [], []); (cp "end_time", [], []); (cp "duration", [], []);
+                      (cp "total", cp "*", []); (cp "enabled", cp "enabled", []);
+                      (cp "passed", s_passed, []); (cp "passed_pct", s_passed, cp "enabled");
+                      (cp "failed", s_failed, []); (cp "failed_pct", s_failed, cp "enabled");
+                      (cp "skipped", s_skipped, []); (cp "skipped_pct", s_skipped, cp "enabled");
+                      (cp "disabled", s_disabled, []); (cp "disabled_pct", s_disabled, cp "*")] /\
+  gen_junit_rules = [(cp "status==skipped", cp "skipped"); (cp "check:unsuccessful", cp "failure");
+                     (cp "log:level==error", cp "error")] /\
+  gen_junit_suite = [(cp "tests", cp "*"); (cp "failures", s_failed); (cp "skipped", s_skipped)] /\
+  gen_junit_top = [(cp "tests", s_passed); (cp "failures", s_failed)] /\
+  gen_console_labels = [(s_passed, cp "OK"); (s_skipped, cp "--"); (s_disabled, cp "--"); (cp "None", cp "--"); (cp "*", cp "KO")] /\
+  gen_console_summary = [(cp "Tests", cp "*", []); (cp "Successes", s_passed, cp "pct"); (cp "Failures", s_failed, []);
+                         (cp "Skipped", s_skipped, cp "if"); (cp "Disabled", s_disabled, cp "if")].
+Proof. vm_compute. repeat split; reflexivity. Qed.
+Print Assumptions C20_tables_tie.
